@@ -37,7 +37,14 @@ where
 
     pub(crate) fn run(mut self) -> Result<(), S::Error> {
         if self.core.begin()? {
-            while self.fill()? && self.core.match_by_line(self.rdr.buffer())? {
+            while self.fill()? {
+                if !self.core.match_by_line(self.rdr.buffer())? {
+                    // The search was stopped early. Account for the part of
+                    // the buffer that was searched, so that the byte count
+                    // reported below agrees with the other strategies.
+                    self.rdr.consume(self.core.pos());
+                    break;
+                }
             }
         }
         self.core.finish(
